@@ -32,7 +32,9 @@ fn main() {
             let stdin = std::io::stdin();
             let mut line = String::new();
             while { line.clear(); std::io::BufRead::read_line(&mut stdin.lock(), &mut line).unwrap() > 0 } {
-                let mut lhs = line.trim_end().split(" => ").next().unwrap().to_string();
+                let full = line.trim_end().to_string();
+                let mut lhs = full.split(" => ").next().unwrap().to_string();
+                let rhs_given = full.split(" => ").nth(1).map(|x| x.to_string());
                 if lhs.is_empty() || lhs.starts_with('#') { continue; }
                 // a type may be given by name (`@Name`): corpus files survive catalog changes
                 let fields: Vec<String> = lhs.split(' ').map(|x| x.to_string()).collect();
@@ -46,6 +48,22 @@ fn main() {
                     "B" => suite_bytes::exec_line(&reg, &mut ar, &mut ar2, &lhs, &mut out),
                     "E" | "F" | "A" => suite_emplace::exec_line(&reg, &mut ar, &lhs, &mut out),
                     "O" => suite_ops::exec_line(&reg, &mut ar, &lhs, &mut out),
+                    "X" | "W" => { writeln!(out, "{} => {}", lhs, rhs_given.clone().unwrap_or_default()).unwrap(); }
+                    k @ ("R" | "AR" | "S" | "AS") => {
+                        let f: Vec<&str> = lhs.split(' ').collect();
+                        let t = reg[f[1].parse::<usize>().unwrap()].as_ref();
+                        let max: usize = f[2].parse().unwrap();
+                        let script = suite_io::parse_script(f[3]);
+                        write!(out, "{} => ", lhs).unwrap();
+                        out.flush().unwrap();
+                        let r = guarded(|| match k {
+                            "R" => t.io_recv(&unhex(f[5]), max, &script, f[4].parse().unwrap()),
+                            "AR" => t.aio_recv(&unhex(f[5]), max, &script, f[4].parse().unwrap()),
+                            "S" => t.io_send(&parse_ds(&f[4..].join(" ").replace('|', " ")), max, &script),
+                            _ => t.aio_send(&parse_ds(&f[4..].join(" ").replace('|', " ")), max, &script),
+                        }).unwrap_or_else(|| "PANIC".into());
+                        writeln!(out, "{}", r).unwrap();
+                    }
                     _ => {}
                 }
             }
